@@ -25,9 +25,10 @@ Record assign := mkAssign { a_var : var; a_op : op; a_val : value }.
 Record line := mkLine { l_file : N; l_lineno : N; l_body : option assign }.
 Definition program := list line.
 
-Inductive result (A : Type) := Ok (a : A) | Panic.
+Inductive result (A : Type) := Ok (a : A) | Panic | OutOfFuel.
 Arguments Ok {A} a.
 Arguments Panic {A}.
+Arguments OutOfFuel {A}.
 
 Definition op_eqb (a b : op) : bool :=
   match a, b with
@@ -68,10 +69,16 @@ Record mvar := mkVar {
   v_cval : str;              (* constantValue *)
   v_value : str;             (* value *)
   v_writes : list (nat * assign);  (* writeLocations: index of the line in the program + the line *)
-  v_cond : bool              (* conditional *)
+  v_cond : bool;             (* conditional *)
+  v_refs : list var          (* refs: a StringSet, elements in insertion order *)
 }.
 
-Definition new_var : mvar := mkVar C0 [] [] [] false.
+Definition new_var : mvar := mkVar C0 [] [] [] false [].
+
+(* StringSet.Add *)
+Definition set_add (l : list var) (w : var) : list var :=
+  if existsb (str_eqb w) l then l else l ++ [w].
+Definition set_add_all (l : list var) (ws : list var) : list var := fold_left set_add ws l.
 
 Definition is_constant (v : mvar) : bool :=
   match v_state v with C1 | C2 => true | _ => false end.
@@ -81,7 +88,7 @@ Definition constant_value (v : mvar) : result str :=
   if is_constant v then Ok (v_cval v) else Panic.
 
 Definition var_read (v : mvar) : mvar :=
-  mkVar (read_table (v_state v)) (v_cval v) (v_value v) (v_writes v) (v_cond v).
+  mkVar (read_table (v_state v)) (v_cval v) (v_value v) (v_writes v) (v_cond v) (v_refs v).
 
 (* Var.update, applied to v.value; called after writeLocations and conditional
    have been updated.  Returns the new content of the builder. *)
@@ -102,7 +109,7 @@ Definition has_make_vars (vl : value) : bool :=
 (* Var.updateConstantValue *)
 Definition var_update_constant (v : mvar) (a : assign) : mvar :=
   if cstate_eqb (v_state v) C3 then v else
-  if v_cond v then mkVar C3 [] (v_value v) (v_writes v) (v_cond v) else
+  if v_cond v then mkVar C3 [] (v_value v) (v_writes v) (v_cond v) (v_refs v) else
   let value := render (a_val a) in
   let '(st, cv) :=
     match a_op a with
@@ -113,14 +120,14 @@ Definition var_update_constant (v : mvar) (a : assign) : mvar :=
         (v_state v, (if cstate_eqb (v_state v) C0 then v_cval v else v_cval v ++ [32]) ++ value)
     | OpShell => (C3, [])
     end in
-  mkVar (or1 st) cv (v_value v) (v_writes v) (v_cond v).
+  mkVar (or1 st) cv (v_value v) (v_writes v) (v_cond v) (v_refs v).
 
 (* Var.Write; the file is assumed to be outside the pkgsrc infrastructure
    (G.Pkgsrc != nil && !IsInfra), so v.value is updated. *)
 Definition var_write (v : mvar) (idx : nat) (a : assign) (conditional : bool) : mvar :=
   let v1 := mkVar (v_state v) (v_cval v) (v_value v) (v_writes v ++ [(idx, a)])
-                  (v_cond v || conditional) in
-  let v2 := mkVar (v_state v1) (v_cval v1) (var_update v1 a) (v_writes v1) (v_cond v1) in
+                  (v_cond v || conditional) (set_add_all (v_refs v) (uses (a_val a))) in
+  let v2 := mkVar (v_state v1) (v_cval v1) (var_update v1 a) (v_writes v1) (v_cond v1) (v_refs v1) in
   var_update_constant v2 a.
 
 (* ---------- includePath ---------- *)
@@ -137,7 +144,7 @@ Fixpoint pop_until_rev (r : list N) (f : N) : result (list N) :=
   | x :: r' => if x =? f then Ok r else pop_until_rev r' f
   end.
 Definition ipath_pop_until (p : ipath) (f : N) : result ipath :=
-  match pop_until_rev (rev p) f with Ok r => Ok (rev r) | Panic => Panic end.
+  match pop_until_rev (rev p) f with Ok r => Ok (rev r) | Panic => Panic | OutOfFuel => OutOfFuel end.
 
 (* p.includes(other): p is a proper prefix of other *)
 Fixpoint ipath_includes (p other : ipath) : bool :=
@@ -169,11 +176,12 @@ Inductive action := ANone | ARead | AWrite.   (* lastAction 0 1 2 *)
 Record varinfo := mkInfo { vi_var : mvar; vi_paths : list ipath; vi_last : action }.
 
 (* s.vars with get(): a missing entry is created on first use, which is the
-   same as a total map whose default is the fresh entry *)
-Record scope := mkScope { s_vars : var -> varinfo; s_path : ipath }.
+   same as a total map whose default is the fresh entry.
+   [s_names] are the keys of the map, in the order get() created them. *)
+Record scope := mkScope { s_vars : var -> varinfo; s_path : ipath; s_names : list var }.
 
 Definition new_info : varinfo := mkInfo new_var [] ANone.
-Definition new_scope : scope := mkScope (fun _ => new_info) [].
+Definition new_scope : scope := mkScope (fun _ => new_info) [] [].
 
 Definition upd {A} (m : var -> A) (k : var) (x : A) : var -> A :=
   fun k' => if str_eqb k k' then x else m k'.
@@ -183,10 +191,11 @@ Inductive vkind := KRedundant | KNoEffect | KOverwritten.
 Record verdict := mkVerdict { vd_flagged : nat; vd_because : nat; vd_kind : vkind }.
 
 Definition update_include_path (s : scope) (l : line) : result scope :=
-  if l_lineno l =? 1 then Ok (mkScope (s_vars s) (ipath_push (s_path s) (l_file l)))
+  if l_lineno l =? 1 then Ok (mkScope (s_vars s) (ipath_push (s_path s) (l_file l)) (s_names s))
   else match ipath_pop_until (s_path s) (l_file l) with
-       | Ok p => Ok (mkScope (s_vars s) p)
+       | Ok p => Ok (mkScope (s_vars s) p (s_names s))
        | Panic => Panic
+       | OutOfFuel => OutOfFuel
        end.
 
 (* onRedundant(redundant, because); IsRelevant is nil or true outside mk/ *)
@@ -196,6 +205,15 @@ Definition on_redundant (redundant because : nat * assign) : verdict :=
 
 Definition on_overwrite (overwritten by_ : nat * assign) : verdict :=
   mkVerdict (fst overwritten) (fst by_) KOverwritten.
+
+(* the loop over prevWrites in handleVarassign: has '!=' been applied since the
+   last '=' or ':=' *)
+Definition after_shell (ws : list (nat * assign)) : bool :=
+  fold_left (fun acc w => match a_op (snd w) with
+                          | OpShell => true
+                          | OpAssign | OpEval => false
+                          | _ => acc
+                          end) ws false.
 
 (* handleVarassign; [depth_pos] is ind.Depth("") > 0 *)
 Definition handle_varassign (s : scope) (idx : nat) (a : assign) (depth_pos : bool)
@@ -207,7 +225,7 @@ Definition handle_varassign (s : scope) (idx : nat) (a : assign) (depth_pos : bo
   let finish (vs : list verdict) : result (scope * list verdict) :=
     let info' := mkInfo (var_write (vi_var info) idx a depth_pos)
                         (vi_paths info ++ [s_path s]) AWrite in
-    Ok (mkScope (upd (s_vars s) varname info') (s_path s), vs) in
+    Ok (mkScope (upd (s_vars s) varname info') (s_path s) (set_add (s_names s) varname), vs) in
   let prev_writes := v_writes (vi_var info) in
   match rev prev_writes with
   | [] => finish []
@@ -219,7 +237,8 @@ Definition handle_varassign (s : scope) (idx : nat) (a : assign) (depth_pos : bo
       let value := render (a_val a) in
       let eff1 := if op_eqb (a_op a) OpEval && negb (has_make_vars (a_val a))
                   then OpAssign else a_op a in
-      let eff2 := if op_eqb eff1 OpAssign && str_eqb (v_value (vi_var info)) value
+      let eff2 := if op_eqb eff1 OpAssign && negb (after_shell prev_writes)
+                        && str_eqb (v_value (vi_var info)) value
                   then OpDefault else eff1 in
       match eff2 with
       | OpAssign =>
@@ -232,38 +251,79 @@ Definition handle_varassign (s : scope) (idx : nat) (a : assign) (depth_pos : bo
             if is_constant (vi_var info) then
               match constant_value (vi_var info) with
               | Panic => Panic
-              | Ok cv => if str_eqb cv value then finish [on_redundant prev me] else finish []
+              | OutOfFuel => OutOfFuel
+              | Ok cv =>
+                  if str_eqb cv value
+                     && (negb (op_eqb (a_op a) OpDefault) || Nat.eqb (length prev_writes) 1)
+                  then finish [on_redundant prev me] else finish []
               end
             else finish []
           else finish []
       | OpAppend => finish []   (* checkAppendUnique: a different kind of note, only for "unique" list types *)
       | OpShell =>
           if included_by_or_equals_all (s_path s) (vi_paths info) then
-            if is_constant (vi_var info) then finish [on_redundant prev me] else finish []
+            if is_constant (vi_var info) && negb (existsb (str_eqb varname) (uses (a_val a)))
+            then finish [on_redundant prev me] else finish []
           else finish []
       | OpEval => finish []
       end
     end
   end.
 
-(* handleExpr for a variable assignment: every use is a read *)
-Definition handle_expr (s : scope) (a : assign) : scope :=
-  fold_left (fun s w =>
-      let info := s_vars s w in
-      let info' := mkInfo (var_read (vi_var info)) (vi_paths info ++ [s_path s]) ARead in
-      mkScope (upd (s_vars s) w info') (s_path s))
-    (uses (a_val a)) s.
+(* s.get + info.vari.Read + lastAction = 1 + s.access *)
+Definition read_one (s : scope) (w : var) : scope :=
+  let info := s_vars s w in
+  let info' := mkInfo (var_read (vi_var info)) (vi_paths info ++ [s_path s]) ARead in
+  mkScope (upd (s_vars s) w info') (s_path s) (set_add (s_names s) w).
+
+(* The variables that an eager assignment (':=', '!=') reads through other
+   variables: everything reachable from the used variables along Var.Refs().
+   The Go code walks this graph depth-first with a "seen" map; here the set is
+   grown one step per round.  [fuel] rounds, then it must be closed. *)
+Definition refs_of (s : scope) (w : var) : list var := v_refs (vi_var (s_vars s w)).
+Definition closure_step (s : scope) (ws : list var) : list var :=
+  set_add_all ws (flat_map (refs_of s) ws).
+Fixpoint closure_rounds (fuel : nat) (s : scope) (ws : list var) : list var :=
+  match fuel with O => ws | S f => closure_rounds f s (closure_step s ws) end.
+Definition closure (fuel : nat) (s : scope) (ws : list var) : result (list var) :=
+  let c := closure_rounds fuel s ws in
+  if forallb (fun w => existsb (str_eqb w) c) (flat_map (refs_of s) c) then Ok c else OutOfFuel.
+
+(* handleExpr for a variable assignment: every use is a read; for ':=' and '!='
+   also every variable read indirectly.  (The order and the multiplicity of the
+   reads differ from the Go code, the set of variables is the same; neither order
+   nor multiplicity can be observed: Read is idempotent and the include paths are
+   only ever tested with "for all".) *)
+Definition handle_expr (s : scope) (a : assign) : result scope :=
+  let direct := uses (a_val a) in
+  let s1 := fold_left read_one direct s in
+  match a_op a with
+  | OpEval | OpShell =>
+      match closure (length (s_names s1)) s1 (set_add_all [] direct) with
+      | Ok c => Ok (fold_left read_one c s1)
+      | Panic => Panic
+      | OutOfFuel => OutOfFuel
+      end
+  | _ => Ok s1
+  end.
 
 Definition check_line (s : scope) (idx : nat) (l : line) : result (scope * list verdict) :=
   match update_include_path s l with
   | Panic => Panic
+  | OutOfFuel => OutOfFuel
   | Ok s1 =>
     match l_body l with
     | None => Ok (s1, [])
     | Some a =>
       match handle_varassign s1 idx a false with
       | Panic => Panic
-      | Ok (s2, vs) => Ok (handle_expr s2 a, vs)
+      | OutOfFuel => OutOfFuel
+      | Ok (s2, vs) =>
+          match handle_expr s2 a with
+          | Ok s3 => Ok (s3, vs)
+          | Panic => Panic
+          | OutOfFuel => OutOfFuel
+          end
       end
     end
   end.
@@ -275,9 +335,11 @@ Fixpoint check_from (s : scope) (idx : nat) (ls : list line) : result (list verd
   | l :: ls' =>
     match check_line s idx l with
     | Panic => Panic
+    | OutOfFuel => OutOfFuel
     | Ok (s', vs) =>
       match check_from s' (S idx) ls' with
       | Panic => Panic
+      | OutOfFuel => OutOfFuel
       | Ok rest => Ok (vs ++ rest)
       end
     end
